@@ -171,6 +171,16 @@ func runC14(h rmHist, st *c14stats) (out []*c12result) {
 		hashes[v] = cid.Hash
 		if v == V {
 			check(v, "between-blocks")
+			// the same queries against a store reopened from the database (no commit since the load)
+			s2, err := rmOpen(crashdb.FromSnapshot(db.Snapshot(), nil), h.N, h.Pruning, -1)
+			if err != nil {
+				fail("reopen", "cannot reopen: %v", err)
+			} else {
+				live := s
+				s = s2
+				check(v, "after-reopen")
+				s = live
+			}
 		}
 	}
 	if len(out) == 0 {
@@ -308,9 +318,9 @@ func c14app(st *c14stats) (out []*c12result) {
 func C14(tier string) int {
 	run := ev.NewRun("C14", tier, "model_checking")
 	type job struct{ n, v, choices int }
-	jobs := []job{{1, 3, 6}, {2, 2, 6}, {2, 3, 3}}
+	jobs := []job{{1, 3, 7}, {2, 2, 7}, {2, 3, 3}}
 	if tier == "thorough" {
-		jobs = []job{{1, 4, 6}, {2, 3, 6}, {2, 4, 3}}
+		jobs = []job{{1, 4, 7}, {2, 3, 7}, {2, 4, 3}}
 	}
 	st := &c14stats{}
 	var total int64
@@ -318,9 +328,13 @@ func C14(tier string) int {
 	sem := make(chan struct{}, runtime.NumCPU())
 	var wg sync.WaitGroup
 	var desc []string
+	prunings := rmPrunings
+	if tier != "thorough" {
+		prunings = [][2]int64{{0, 1}, {0, 0}, {1, 2}, {2, 3}}
+	}
 	for _, j := range jobs {
 		cnt := int64(0)
-		for _, pr := range rmPrunings {
+		for _, pr := range prunings {
 			pr := pr
 			var batch [][][]int
 			flush := func(b [][][]int) {
@@ -352,7 +366,7 @@ func C14(tier string) int {
 			}
 		}
 		total += cnt
-		desc = append(desc, fmt.Sprintf("N=%d V=%d choices=%d: %d histories x %d pruning options", j.n, j.v, j.choices, cnt/int64(len(rmPrunings)), len(rmPrunings)))
+		desc = append(desc, fmt.Sprintf("N=%d V=%d choices=%d: %d histories x %d pruning options", j.n, j.v, j.choices, cnt/int64(len(prunings)), len(prunings)))
 	}
 	wg.Wait()
 	for _, r := range c14app(st) {
